@@ -223,8 +223,8 @@ example :
     chk { total := some 7500, useDns := true } [(3, [.startR])] = true ∧
     chk { total := some 7500 } [(3, [.startR])] = true ∧
     chk { total := some 7500, wstall := true } [(3, [.startR]), (10, [.connDone 0])] = true ∧
-    chk { total := some 7500 } [(3, [.startR]), (10, [.connDone 0]), (20, [.bytes ⟨9, false, 0, false, false⟩])] = true ∧
-    chk { total := some 7500 } [(3, [.startR]), (10, [.connDone 0]), (20, [.bytes ⟨40, true, 3, false, false⟩])] = true := by
+    chk { total := some 7500 } [(3, [.startR]), (10, [.connDone 0]), (20, [.bytes ⟨9, false, 0, false, false, false⟩])] = true ∧
+    chk { total := some 7500 } [(3, [.startR]), (10, [.connDone 0]), (20, [.bytes ⟨40, true, 3, false, false, false⟩])] = true := by
   decide +kernel
 
 /-- kernel-checked runs for the three seeded defects' scenarios (the universally quantified
@@ -240,10 +240,10 @@ example :
       [(3, [.startR]), (13, [.connDone 0]), (777, [.cancel])])
     let c2 : Cfg := { total := some 1500, closeDelim := true }
     let s2 := observe c2 (run c2 (init false)
-      [(1003, [.startR]), (1093, [.connDone 0]), (1183, [.bytes ⟨40, true, 10, false, false⟩])])
+      [(1003, [.startR]), (1093, [.connDone 0]), (1183, [.bytes ⟨40, true, 10, false, false, false⟩])])
     let c3 : Cfg := { closeDelim := true }
     let s3 := observe c3 (run c3 (init false)
-      [(3, [.startR]), (13, [.connDone 0]), (20, [.bytes ⟨40, true, 10, false, false⟩]), (30, [.peerEof])])
+      [(3, [.startR]), (13, [.connDone 0]), (20, [.bytes ⟨40, true, 10, false, false, false⟩]), (30, [.peerEof])])
     (s1.pc = .done .cancelled 777 ∧ s1.wr = .cancelled ∧ s1.slot = .none ∧ s1.tr = .closed) ∧
     (s2.pc = .done .timeout 2503 ∧ s2.slot = .none ∧ s2.tr = .closed ∧ s2.pooled = false) ∧
     (s3.pc = .done .ok 30 ∧ s3.slot = .none ∧ s3.tr = .closed ∧ s3.pooled = false) := by
@@ -286,13 +286,27 @@ ok at once, the writer task is cancelled, connection closed (body unread), slot 
 example :
     let c1 : Cfg := { wstall := true, early := true }
     let s1 := observe c1 (run c1 (init false)
-      [(3, [.startR]), (13, [.connDone 0]), (103, [.bytes ⟨45, true, 6, false, false⟩])])
+      [(3, [.startR]), (13, [.connDone 0]), (103, [.bytes ⟨45, true, 6, false, false, false⟩])])
     let c2 : Cfg := { wstall := true, total := some 2000 }
     let s2 := observe c2 (run c2 (init false)
-      [(3, [.startR]), (13, [.connDone 0]), (103, [.bytes ⟨45, true, 6, false, false⟩])])
+      [(3, [.startR]), (13, [.connDone 0]), (103, [.bytes ⟨45, true, 6, false, false, false⟩])])
     (s1.pc = .done .ok 103 ∧ s1.wr = .cancelled ∧ s1.slot = .none ∧ s1.tr = .closed ∧ s1.pooled = false) ∧
     (s2.pc = .done .timeout 2003 ∧ s2.wr = .cancelled ∧ s2.slot = .none ∧ s2.tr = .closed) := by
   decide +kernel
+
+/-- **redirect_keeps_total.** Following a redirect (release of the 3xx response's connection, new
+`connect()` for the next hop) leaves the total timer exactly as it was armed at the start of the
+request: `total` spans all hops, whereas the connect window is armed afresh (`armConn`). -/
+theorem redirect_keeps_total (cfg : Cfg) (s : St) : (redirectStep cfg s).totalT = s.totalT := by
+  have hr : ∀ u : St, (releaseWaiter cfg u).totalT = u.totalT := by
+    intro u; unfold releaseWaiter; repeat (first | rfl | split)
+  have ha : ∀ u : St, (armConn cfg u).totalT = u.totalT := by
+    intro u; unfold armConn; repeat (first | rfl | split)
+  unfold redirectStep
+  simp only []
+  split
+  · simp only [ha, hr]; rfl
+  · rw [(createConn_keeps cfg _).1, ha, hr]; rfl
 
 /-! ## others are unaffected -//-! ## others are unaffected -/
 
